@@ -277,6 +277,10 @@ class Ref:
                         and any({x[1] for x in oneof_ids(sc)} - {scope_id[1]} for sc in others):
                     # a node needed only inside candidates, by a failed candidate and by a candidate of another one-of
                     self.tags.add('oneof.failed-candidate-shares-private-node')
+                if others and all(oneof_ids(sc) for sc in self.requested.get(n, set())) \
+                        and any(any(x[1] == scope_id[1] and x[2] > scope_id[2] for x in oneof_ids(sc)) for sc in others):
+                    # ... and by a later candidate of the same one-of
+                    self.tags.add('oneof.later-candidate-shares-private-node-with-failed-one')
         values = {n: v[1] for n, v in self.memo.items() if v[0] == 'ok'}
         return RefResult(outcome=outcome, invocations=self.inv, certain=certain, touched=touched,
                          defaults=self.defaults, tags=self.tags | S.static_tags(self.spec) | structure_tags(self.spec),
